@@ -294,6 +294,8 @@ func checkC02(p *Prog, r *Result, tier string) {
 	r.Rule("C02.R4", "type guard dominates evaluation: on both search paths the comparison of the probe's class with the field's class, returning ErrCasting on mismatch, precedes every comparator / range-function call", 2)
 	r.Rule("C02.R5", "nobody writes through an index alias: no append or element store through a slice aliasing the live index outside the field-index type's own mutators", 0)
 	r.Rule("C02.R6", "And/Or plumbing: And passes the receiver's result as constraint and Or passes none; the constrained index is built only from entries found by object id in the live field index; Len is the length of the slice the iterator walks; Search.Delete deletes exactly the iterator built from that slice", 4)
+	r.Rule("C02.R7", "the indexed pattern search is the pattern match on every entry: in the field-index function that evaluates '~=', every entry that can reach the result was appended under the true edge of a MatchString of that entry's value; the function returns nothing else (no delegation to an ordering search, no sub-slice of the index)", 1)
+	checkRegexArm(p, r, "C02.R7")
 	r.NotDecided = []string{"correctness of the bisection (insertionIndexRec, rangeEqual) and of the slice bounds in the six range functions for all index contents: value/arithmetic reasoning that needs loop invariants and a solver (another family)", "field path resolution by reflection (fieldByName)", "completeness of scan results"}
 	c := computeClosures(p)
 	checkComparisonCore(p, r, "C02.R1")
@@ -642,8 +644,9 @@ func checkTypeGuard(p *Prog, c *Closures, r *Result, rule string) {
 			r.Report(rule, name, "type guard", Undecided, "function not found", "", nil, false)
 			continue
 		}
-		// guard block: If on a string inequality whose true edge loads ErrCasting
+		// guard blocks: If on a string inequality whose true edge loads ErrCasting
 		var guard *ssa.BasicBlock
+		var guards []*ssa.BasicBlock
 		for _, b := range fn.Blocks {
 			ifi, ok := b.Instrs[len(b.Instrs)-1].(*ssa.If)
 			if !ok {
@@ -660,6 +663,7 @@ func checkTypeGuard(p *Prog, c *Closures, r *Result, rule string) {
 				if ld, ok := in.(*ssa.UnOp); ok {
 					if g, ok := ld.X.(*ssa.Global); ok && g.Object() == a.SentByName["ErrCasting"] {
 						guard = b
+						guards = append(guards, b)
 					}
 				}
 			}
@@ -693,7 +697,16 @@ func checkTypeGuard(p *Prog, c *Closures, r *Result, rule string) {
 				if !takesEntry {
 					continue
 				}
-				if !(guard.Succs[1].Dominates(b) || guard.Succs[1] == b) {
+				// some guard lies on every path to the call (its block dominates the call) and its mismatch edge does
+				// not lead to the call: a guard nested under another condition (e.g. "only when the field has a
+				// descriptor") does not protect the call on the paths that skip it
+				protected := false
+				for _, g := range guards {
+					if (g.Dominates(b) || g == b) && !blockReaches(g.Succs[0], b) {
+						protected = true
+					}
+				}
+				if !protected {
 					bad = FuncName(f)
 				}
 			}
@@ -701,7 +714,7 @@ func checkTypeGuard(p *Prog, c *Closures, r *Result, rule string) {
 		if bad == "" {
 			r.Report(rule, FuncName(fn), "type guard", Discharged, "", p.Pos(fn.Pos()), nil, true)
 		} else {
-			r.Report(rule, FuncName(fn), "type guard", Violated, "call to "+bad+" is not dominated by the class guard", p.Pos(fn.Pos()), nil, true)
+			r.Report(rule, FuncName(fn), "type guard", Violated, "call to "+bad+" is reachable on a path that skips every class guard: its unchecked type assertions panic on a search value of another class (or the mismatch goes unreported)", p.Pos(fn.Pos()), nil, true)
 		}
 	}
 }
@@ -801,5 +814,127 @@ func checkAndOrPlumbing(p *Prog, c *Closures, r *Result, rule string) {
 		} else {
 			r.Report(rule, FuncName(del), "deletes the iterator of the result", Violated, "Search.Delete does not delete exactly the iterator built from its result", p.Pos(del.Pos()), nil, true)
 		}
+	}
+}
+
+// checkRegexArm: origin analysis of the result of the field-index pattern search.
+func checkRegexArm(p *Prog, r *Result, rule string) {
+	a := p.A
+	isMatch := func(v ssa.Value) bool {
+		c, ok := v.(*ssa.Call)
+		if !ok {
+			return false
+		}
+		f := c.Call.StaticCallee()
+		return f != nil && f.Name() == "MatchString" && f.Signature.Recv() != nil && isNamedFrom(f.Signature.Recv().Type(), "regexp", "Regexp")
+	}
+	n := 0
+	for _, fn := range p.Funcs {
+		if fn.Parent() != nil || !recvIs(fn, a.FieldIndex) {
+			continue
+		}
+		matches := false
+		for _, b := range fn.Blocks {
+			for _, in := range b.Instrs {
+				if v, ok := in.(ssa.Value); ok && isMatch(v) {
+					matches = true
+				}
+			}
+		}
+		if !matches {
+			continue
+		}
+		n++
+		// which result is the entry slice
+		ri := -1
+		for i := 0; i < fn.Signature.Results().Len(); i++ {
+			if sl, ok := fn.Signature.Results().At(i).Type().Underlying().(*types.Slice); ok && named(sl.Elem()) == a.IndexedField {
+				ri = i
+			}
+		}
+		if ri < 0 {
+			r.Report(rule, FuncName(fn), "result entries are matched entries", Undecided, "the pattern search does not return an entry slice", p.Pos(fn.Pos()), nil, true)
+			continue
+		}
+		bad := ""
+		var badAt ssa.Instruction
+		seen := map[ssa.Value]bool{}
+		var origin func(v ssa.Value, at ssa.Instruction)
+		origin = func(v ssa.Value, at ssa.Instruction) {
+			if seen[v] || bad != "" {
+				return
+			}
+			seen[v] = true
+			switch x := v.(type) {
+			case *ssa.Const:
+				if !x.IsNil() {
+					bad = "a constant"
+				}
+			case *ssa.MakeSlice:
+			case *ssa.Slice:
+				if al, ok := x.X.(*ssa.Alloc); ok {
+					if arr, ok := al.Type().(*types.Pointer).Elem().Underlying().(*types.Array); ok && arr.Len() == 0 {
+						return // make([]T, 0)
+					}
+				}
+				bad, badAt = "a sub-slice ("+x.String()+")", at
+			case *ssa.Phi:
+				for _, e := range x.Edges {
+					origin(e, x)
+				}
+			case *ssa.UnOp:
+				// a named result kept in a cell: follow the stores
+				if al, ok := x.X.(*ssa.Alloc); ok && al.Referrers() != nil {
+					for _, rf := range *al.Referrers() {
+						if st, ok := rf.(*ssa.Store); ok && st.Addr == al {
+							origin(st.Val, st)
+						}
+					}
+					return
+				}
+				bad, badAt = "a loaded value", at
+			case *ssa.Call:
+				if bi, ok := x.Call.Value.(*ssa.Builtin); ok && bi.Name() == "append" {
+					origin(x.Call.Args[0], x)
+					// the appended entry: guarded by MatchString on the true edge
+					guarded := false
+					for d := x.Block(); d != nil; d = d.Idom() {
+						ifi, ok := d.Instrs[len(d.Instrs)-1].(*ssa.If)
+						if !ok || d == x.Block() {
+							continue
+						}
+						if isMatch(ifi.Cond) && (d.Succs[0] == x.Block() || d.Succs[0].Dominates(x.Block())) && len(d.Succs[0].Preds) == 1 {
+							guarded = true
+						}
+					}
+					if !guarded {
+						bad, badAt = "an append that is not under a successful MatchString", x
+					}
+					return
+				}
+				bad, badAt = "the result of a call to "+FuncName(x.Call.StaticCallee()), x
+			case *ssa.Extract:
+				bad, badAt = "the result of a call", at
+			default:
+				bad, badAt = "a value of unknown origin", at
+			}
+		}
+		for _, b := range fn.Blocks {
+			if ret, ok := b.Instrs[len(b.Instrs)-1].(*ssa.Return); ok && ri < len(ret.Results) {
+				origin(ret.Results[ri], ret)
+			}
+		}
+		if bad == "" {
+			r.Report(rule, FuncName(fn), "result entries are matched entries", Discharged, "", p.Pos(fn.Pos()), nil, true)
+		} else {
+			where := p.Pos(fn.Pos())
+			if badAt != nil {
+				where = p.Pos(badAt.Pos())
+			}
+			r.Report(rule, FuncName(fn), "result entries are matched entries", Violated, "the indexed pattern search can return "+bad+": entries that were not matched against the pattern (or not all that match) reach the result, so '~=' on an indexed field no longer means what it means on an unindexed one", where, nil, true)
+		}
+	}
+	if n == 0 {
+		r.Report(rule, "-", "pattern search of the field index", Violated, "no field-index function evaluates a pattern with MatchString", "", nil, true)
 	}
 }
